@@ -94,6 +94,8 @@ func c16Generated(r *Rng, i int, palette []json.RawMessage) c16Def {
 	wh := func() string {
 		return Pick(r, []string{"@webhook", "@webhook.name", "@(webhook.items[0])", "@(upper(webhook.x) & webhook)", "@(WEBHOOK.a)", "@webhook.json", "no refs", "@contact.name",
 			"@(foreach(array(1), (webhook) => webhook))", "@(\"webhook\")", "@webhooks", "@(webhook)",
+			// a reference next to an expression that does not parse
+			"Balance: @webhook.name, used: @(webhook.x / )", "@webhook.a and @(webhook.a +) and @(upper(webhook.x))", "@(webhook.a & ) @webhook",
 			// rewritten expressions are printed again: long literals, escapes, numbers written unusually, lookups by number
 			"@(if(webhook.ok, \"" + strings.Repeat("long text ", 20) + "end\", \"Sorry\"))", "@(\"" + strings.Repeat("long text ", 20) + "end\" & webhook)", "@(webhook.a & \"q\\\"uote\\n\" & 007 & 1.50)", "@(webhook.items.0 .1 & webhook[\"k\"])"})
 	}
@@ -501,7 +503,9 @@ func runC16(c *Ctx) {
 					v1, _, e1 := excellent.NewEvaluator().Template(env, ctx1, before[k], nil)
 					v2, _, e2 := excellent.NewEvaluator().Template(env, ctx2, after[k], nil)
 					c.Count("check:M-rewrite-meaning")
-					if e1 == nil && (e2 != nil || v1 != v2) {
+					// a template with an expression that does not parse is rewritten too (the broken expression is written back as
+					// it was, the others are rewritten): what is left of the text, and whether there were errors, is compared as well
+					if (e1 == nil) != (e2 == nil) || v1 != v2 {
 						sig := "rewrite-changes-value"
 						if strings.Contains(before[k], "(webhook) =>") {
 							sig += ":lambda-parameter"
